@@ -292,7 +292,10 @@ def op_restart(h, tag="r"):
     fn = os.path.join(scratch_dir(), "%s-%s.npz" % (h.label, tag))
     if os.path.exists(fn):
         os.remove(fn)
-    lib_call("save", h.chain.save, fn)
+    if h.kind == "hmc" and (h.cfg["seed"] + len(tag)) % 3 == 0:
+        lib_call("save(compressed=True)", h.chain.save, fn, compressed=True)  # HamiltonianChain's optional compressed format
+    else:
+        lib_call("save", h.chain.save, fn)
     if not os.path.exists(fn):
         raise LibRaised("save", FileNotFoundError("save() did not create %s" % fn))
     old = h.chain
